@@ -25,6 +25,7 @@ inductive Ev
   | gorc (n : Nat)              -- census just before cancel: goroutines of this call inside the library
   | hk (point : String) | hkRelease
   | lag (ms : Nat)
+  | cstop | cres                -- the script's consumer of msgsFromPanel stops / resumes receiving
   | fin
   | other (s : String)
   deriving DecidableEq, Repr, Inhabited
@@ -92,6 +93,16 @@ def framesIn (sc : Script) (n : Nat) : Nat :=
   | .asc => ascLinesIn sc.stream n
   | _ => binFramesIn (sc.stream.length + 1) sc.stream n
 
+/-- end offsets of the frames of a stream whose frames (binary: header + payload, ASCII: line + LF) have the byte
+lengths `lens` -/
+def frameEnds : List Nat → List Nat
+  | [] => []
+  | n :: ls => n :: (frameEnds ls).map (· + n)
+
+/-- number of frames that lie completely inside the first `d` bytes of such a stream: what must have been
+delivered, exactly once each, when the panel drops the connection after `d` bytes -/
+def completeBefore (lens : List Nat) (d : Nat) : Nat := ((frameEnds lens).filter (· ≤ d)).length
+
 /-! ## clause 1-2: callbacks -/
 
 def callbacks (tr : List TEv) : List (Nat × Ev) :=
@@ -155,10 +166,25 @@ def eat : (allowed : Nat) → (exp : List String) → (toks : List String) → N
   | _, _, [] => (0, [])
   | a + 1, e :: es, t :: ts => if e = t then let (n, r) := eat a es ts; (n + 1, r) else (0, t :: ts)
 
+/-- ASSUMPTION of the property (documented API precondition, connecttopanel.go line 28): someone receives from
+`msgsFromPanel`.  When the script's consumer is paused at the moment of the cancellation, only what was completely sent
+before the pause began is demanded (the client can hand over nothing while nobody receives). -/
+def effectiveCancelTime (tr : List TEv) : Option Nat :=
+  match firstCancelTime tr with
+  | none => none
+  | some tc =>
+    let stops := tr.filter (fun x => x.e = .cstop ∧ x.t ≤ tc)
+    match stops.getLast? with
+    | none => some tc
+    | some st => if tr.any (fun x => x.e = .cres ∧ st.t ≤ x.t ∧ x.t ≤ tc) then some tc else some st.t
+
+/-- … and the return is bounded from the later of the cancellation and the consumer's last resumption -/
+def lastConsumerResume (tr : List TEv) : Nat := tr.foldl (fun m x => if x.e = .cres then max m x.t else m) 0
+
 /-- every connection delivers frames 0.. of the stream, at least those completely sent `settleMs` before the
 cancellation (all of them when the panel dropped the connection), at most those completely sent; nothing else. -/
 def deliveriesOk (sc : Script) (tr : List TEv) : Option String :=
-  let tc := firstCancelTime tr
+  let tc := effectiveCancelTime tr
   let rec go (fuel k : Nat) (toks : List String) : Option String :=
     match fuel with
     | 0 => if toks.isEmpty then none else some "unexpected_delivery"
@@ -216,7 +242,8 @@ def afterCancelOk (sc : Script) (tr : List TEv) : Option String :=
   | some tc, some r =>
     -- one (retry + probe + EOF sleep) per connection cycle the environment forced after the cancellation
     let cycles := 1 + countAfter tr tc isDisFalse
-    if r.t > tc + cycles * (rcMs sc + probeMs + eofSleepMs) + tolLate + lagMs then some "return_not_bounded"
+    let tb := max tc (lastConsumerResume tr)
+    if r.t > tb + cycles * (rcMs sc + probeMs + eofSleepMs) + tolLate + lagMs then some "return_not_bounded"
     else if tr.any (fun x => x.e = .nowg) ∨ !tr.any (fun x => x.e = .wg) then some "waitgroup_not_drained"
     else if tr.any (fun x => match x.e with | .gor n => n ≠ 0 | _ => false) then some "goroutine_left_after_wg_wait"
     else
